@@ -20,6 +20,12 @@ set_option linter.unusedSimpArgs false
 namespace Hyp.C20
 open Hyp Hyp.Score Hyp.SetOps Hyp.QP
 
+-- Every theorem below holds for ANY BM25 parameters (`Score.Bm25`: the `K1`, `B` the scoring loop reads, the
+-- `K1` `query_weight` reads – class attributes of `OkapiIndex` that a subclass or an instance may override);
+-- the two Okapi bound theorems need them in the ranges of `Bm25Ok`: `0 ≤ K1`, `0 ≤ B ≤ 1`, and `query_weight`
+-- reading a `K1` not below the loop's.  `c20_okapi_bound_default` is the instance `K1 = 1.2`, `B = 0.75`.
+variable [Bm25 ℝ]
+
 /-- **Normalisation.** Whatever the tree and the back end: if executing the tree gives the raw
 scores `raw`, `TextIndex.apply` returns the same documents with `raw / query_weight(terms)`
 (`raw` itself if that weight is 0). -/
@@ -55,8 +61,12 @@ theorem c20_apply_passthrough (k : Kind) (s : State) (lex : Lex) (t : Tree) :
   · intro h; unfold Score.apply; rw [h]
   · intro e h; unfold Score.apply; rw [h]
 
-/-- **Okapi, raw scores**: for every history, lexicon and glob-free tree, every returned document
-has `0 < score ≤ query_weight(tree.terms())` – the docstring's "upper bound on document scores". -/
+section okapiBound
+variable [Bm25Ok]
+
+/-- **Okapi, raw scores**: for every history, lexicon and glob-free tree, and all parameters with
+`0 ≤ k1 ≤ kq`, `0 ≤ b ≤ 1`, every returned document has `0 < score ≤ query_weight(tree.terms())` –
+the docstring's "upper bound on document scores". -/
 theorem c20_okapi_raw_bound (ops : List Op) (lex : Lex) (t : Tree) (hg : globFree t = true)
     (r : Res ℝ) (h : exec (textIndex .okapi (run ops) lex) t = .ok (some r)) :
     ∃ raw, r = .ok raw ∧ ∀ d v, AMap.get raw d = some v →
@@ -91,6 +101,30 @@ theorem c20_okapi_bound (ops : List Op) (lex : Lex) (t : Tree) (hg : globFree t 
         rw [if_neg (ne_of_gt hq)] at hv
         subst hv
         exact ⟨div_pos hx1 hq, (div_le_one hq).mpr hx2⟩
+
+end okapiBound
+
+omit [Bm25 ℝ] in
+/-- the default parameters `K1 = 1.2`, `B = 0.75` are in range -/
+instance bm25Ok_default : @Bm25Ok Bm25.default :=
+  @Bm25Ok.mk Bm25.default
+    (by simp only [Bm25.default_k1, Scalar.nat_real]; norm_num)
+    (by simp only [Bm25.default_b, Scalar.nat_real]; norm_num)
+    (by simp only [Bm25.default_b, Scalar.nat_real]; norm_num)
+    (by simp only [Bm25.default_k1, Bm25.default_kq]; exact le_refl _)
+
+/-- a tuned index (`K1 = 2`, `B = 0.5`: pure-Python loop, both read from the same attributes) is in range, and so is
+the compiled loop (constants 1.2 / 0.75) under an index whose `K1` attribute was raised to 2 -/
+example : @Bm25Ok ⟨2, 0.5, 2⟩ := @Bm25Ok.mk ⟨2, 0.5, 2⟩ (by norm_num) (by norm_num) (by norm_num) (le_refl _)
+example : @Bm25Ok ⟨1.2, 0.75, 2⟩ :=
+  @Bm25Ok.mk ⟨1.2, 0.75, 2⟩ (by norm_num) (by norm_num) (by norm_num) (by norm_num)
+
+omit [Bm25 ℝ] in
+/-- **Okapi with the default parameters**: normalised scores of glob-free queries lie in (0, 1]. -/
+theorem c20_okapi_bound_default (ops : List Op) (lex : Lex) (t : Tree) (hg : globFree t = true)
+    (r : WMap ℝ) (h : @Score.apply ℝ _ Bm25.default .okapi (run ops) lex t = .ok (some r)) :
+    ∀ d v, AMap.get r d = some v → 0 < v ∧ v ≤ 1 :=
+  @c20_okapi_bound Bm25.default bm25Ok_default ops lex t hg r h
 
 /-- **What a tree's score is** (both back ends): for a glob-free tree every returned document's
 raw score is `Σ_{x ∈ S} summand(x)` of the C08 formula, for a non-empty sub-list `S` of the word ids
